@@ -117,7 +117,10 @@ def isoformat(dt: datetime.date | datetime.time | datetime.timedelta) -> str:
 
 @compat.lru_cache(maxsize=100_000)
 def _isoduration(td: datetime.timedelta) -> str:
-    # Exact integer arithmetic on the normalized fields of the timedelta.
+    # Exact integer arithmetic on the normalized fields of the timedelta. Subclasses such as
+    #   pendulum.Duration (which `dateparse` returns) compare and hash equal to the plain
+    #   timedelta but re-define `.seconds`/`.microseconds`: read the plain value (`+td`).
+    td = +td
     total = (td.days * 86_400 + td.seconds) * 1_000_000 + td.microseconds
     sign, total = ("-", -total) if total < 0 else ("", total)
     seconds, micros = divmod(total, 1_000_000)
